@@ -439,6 +439,39 @@ func (i *instantiator) suffix(args []boundParam) string {
 	return sb.String()
 }
 
+// fixArgRefs points the ArgRefs of all commands in an instantiated nonterminal to the instantiated
+// symbols. doExpr copies commands verbatim, so they still carry pre-instantiation symbol indices
+// and share their CmdArgs with all other instances of the same template.
+func fixArgRefs(val *Expr, terms int) {
+	rules := []*Expr{val}
+	if val.Kind == Choice {
+		rules = val.Sub // positions are numbered per top-level rule
+	}
+	for _, rule := range rules {
+		syms := make(map[int]int) // position -> instantiated symbol
+		rule.ForEach(Reference, func(e *Expr) { syms[e.Pos] = e.Symbol })
+		rule.ForEach(Command, func(e *Expr) {
+			if e.CmdArgs == nil || e.CmdArgs.ArgRefs == nil {
+				return
+			}
+			if e.CmdArgs.MayBeMissing == nil {
+				e.CmdArgs.MayBeMissing = make(map[string]bool) // stays shared by all instances
+			}
+			args := *e.CmdArgs
+			args.ArgRefs = make(map[int]ArgRef, len(e.CmdArgs.ArgRefs))
+			for pos, ref := range e.CmdArgs.ArgRefs {
+				if sym, ok := syms[pos]; ok {
+					ref.Symbol = sym
+				} else if ref.Symbol >= terms {
+					continue // this nonterminal reference was dropped by a template predicate
+				}
+				args.ArgRefs[pos] = ref
+			}
+			e.CmdArgs = &args
+		})
+	}
+}
+
 func newInstantiator(m, out *Model) *instantiator {
 	ret := &instantiator{m: m, out: out, boundMap: make(map[boundParam]int)}
 	ret.instanceMap = container.NewIntSliceMap(ret.allocate)
@@ -471,6 +504,7 @@ func Instantiate(m *Model) error {
 	for i := 0; i < len(inst.instances); i++ {
 		curr := inst.instances[i]
 		curr.val = inst.doExpr(curr, m.Nonterms[curr.nonterm].Value)
+		fixArgRefs(curr.val, len(m.Terminals))
 		curr.suffix = inst.suffix(curr.args)
 	}
 
